@@ -87,6 +87,26 @@ CHECKS = {
         note="Trusted: z3, the sqlite3 model (dual-run conformance), CPython's documented float algorithms. The IEEE lemma is decided for instants before 2038-01-19 only (2000..2038 quick, 1970..2038 thorough): beyond 2^31 s exactness depends on ties-to-even, where the coarse encoding yields non-reproducing candidates and the exact one does not finish — 2038..2100 is NOT decided for float fidelity (exact-arithmetic parts cover those dates). Peewee backend not covered by this check.",
         ref="§4, §7 C01",
     ),
+    "C05": dict(
+        text="Every history of L lifecycle operations (create, update with 5 field masks, delete, lookup, describe, event insert, event read) over two bucket ids is explored by forking, with symbolic event content; after every step z3 / structural comparison decides that the listing equals a reference map (all metadata fields, creation instant, data), that a created bucket is empty, that updates change exactly the supplied fields, that deletion removes the bucket and its events at table level (no orphan rows, re-creation yields an empty bucket), and that operations on a missing bucket raise KeyError / ValueError and change nothing.",
+        note="As C02. The value space is small and mostly structural (stated in DESIGN): exhaustive bounded exploration, L<=3 quick / 4 thorough. Outside the quantifier: create on an existing id, empty updates, empty-string fields.",
+        ref="§7 C05",
+    ),
+    "C07": dict(
+        text="The standard heartbeat loop (get(limit=1), heartbeat_merge, replace_last | insert) written over the real Bucket API is run (a) as an inductive step from a bucket holding an arbitrary reduced stream with another populated bucket sharing the database and (b) on whole streams from the empty bucket; z3 decides that the bucket equals the real heartbeat_reduce of the stream, that earlier events are untouched and the other bucket is unchanged.",
+        note="As C02 / C08. |R|<=2, k<=3 (quick); |R|<=3, k<=4 (thorough); memory and sqlite.",
+        ref="§7 C07",
+    ),
+    "C12": dict(
+        text="27 query programs (every registered built-in, including the in-place transforms, and six programs that raise midway) run through the real query() over a store with symbolic event instants and a symbolic query window (each edge with its own UTC offset); z3 decides that the table-level dump and metadata of every bucket are identical afterwards whether the query returned or raised, and that query_bucket / query_bucket_eventcount equal a direct windowed Bucket.get / get_eventcount for the same symbolic window.",
+        note="As C02 plus the transform stubs of C08/C10/C16; STARTTIME/ENDTIME travel as opaque ISO text (iso8601 stubbed by contract). Program texts are concrete here. Memory and sqlite backends.",
+        ref="§7 C12",
+    ),
+    "C14": dict(
+        text="The real SqliteStorage.__init__ -> check_for_migration -> detect_db_files -> peewee_v2_to_sqlite_v1 path runs with an in-memory directory listing (5 variants x both profiles) and a legacy store stub holding buckets and events with symbolic instants, durations, tags and ids; z3 decides that migration is triggered iff a legacy file of that profile exists, that every bucket arrives with all metadata incl. data, that every event arrives exactly once with the same instant, duration and data, and that the legacy store received no write.",
+        note="Trusted: the sqlite3 model; the legacy store is a stub behind the real AbstractStorage interface (reading the legacy file through peewee is not part of this check). <=2 buckets x <=2 (quick) / 3 (thorough) events.",
+        ref="§7 C14",
+    ),
 }
 
 NOT_YET = "check not built yet (work in progress; see DESIGN.md §7 for the plan)"
